@@ -40,6 +40,8 @@ RULE = ('one case = one Segmentation built from a generated (source kind and geo
         'plane, distinct by (type, layout, dtype, rows*cols mod 8, rows*cols < 8, planes, segments, omit, empties, syntax, '
         'source kind, path)')
 ASSUMPTIONS = [
+    'a mask is its logical content: the model sees planes in row-major order whatever the memory layout of the numpy array '
+    '(the code flattens with flatten(); pinned by T20 and exercised with non-contiguous / Fortran / strided / read-only arrays)',
     'fractional inputs are dyadic rationals k/2^j (j <= 10) so that x * max_fractional_value is exact in float32/float64; '
     'rounding of non-dyadic products inside numpy is not modelled',
     'plane order (DimensionIndexSequence.get_index_values) is a parameter of the model: theorems hold for every order; '
